@@ -50,7 +50,9 @@ fn addr_expr(r: &mut Rng) -> Expression {
 fn cmp(r: &mut Rng) -> Expression {
     let op = *r.pick(&[BinOpType::IntEqual, BinOpType::IntNotEqual, BinOpType::IntLess, BinOpType::IntSLess]);
     let rhs = if r.chance(2, 3) { econst(0) } else { any8(r) };
-    ebin(op, any8(r), rhs)
+    // the return register of the sources is tested more often than the others (NULL checks)
+    let lhs = if r.chance(1, 2) { evar("RAX") } else { any8(r) };
+    ebin(op, lhs, rhs)
 }
 
 pub struct TaintHooks;
@@ -58,17 +60,28 @@ impl Hooks for TaintHooks {
     fn defs(&mut self, r: &mut Rng, _ctx: &BlkCtx) -> Vec<Def> {
         let n = r.below(5);
         (0..n)
-            .map(|_| match r.below(10) {
+            .map(|_| match r.below(11) {
                 0..=3 => Def::Assign { var: reg(pick_str(r, &MT)), value: any_expr(r) },
                 4 => Def::Assign { var: reg(pick_str(r, &NT)), value: nt_expr(r) },
                 5 => Def::Assign { var: var("ZF", 1), value: cmp(r) },
+                // a load that overwrites its own address register (`RAX := Load [RAX+8]`): after it the
+                // pointer may be tainted nowhere else, the dereference is a sink all the same
+                10 => {
+                    let x = if r.chance(2, 3) { "RAX" } else { pick_str(r, &MT) };
+                    Def::Load { var: reg(x), address: if r.chance(1, 2) { evar(x) } else { ebin(BinOpType::IntAdd, evar(x), econst(8 * r.range(1, 4))) } }
+                }
                 6 | 7 => Def::Load { var: reg(if r.chance(2, 3) { pick_str(r, &MT) } else { pick_str(r, &NT) }), address: addr_expr(r) },
                 _ => Def::Store { address: addr_expr(r), value: nt_expr(r) },
             })
             .collect()
     }
     fn cond(&mut self, r: &mut Rng, _ctx: &BlkCtx) -> Expression {
-        if r.chance(1, 3) { Expression::Var(var("ZF", 1)) } else { cmp(r) }
+        // half of the conditions are NULL checks of the sources' return register
+        match r.below(6) {
+            0 | 1 | 2 => ebin(if r.chance(1, 2) { BinOpType::IntEqual } else { BinOpType::IntNotEqual }, evar("RAX"), econst(0)),
+            3 => Expression::Var(var("ZF", 1)),
+            _ => cmp(r),
+        }
     }
     fn pick_extern(&mut self, r: &mut Rng, _ctx: &BlkCtx, externs: &[ExternSymbol]) -> usize {
         // sources (the first entries of the table) are called more often
@@ -115,6 +128,8 @@ fn knobs(two_cconvs: bool) -> Knobs {
     Knobs {
         subs: (1, 3), blocks: (2, 6), w_branch: 14, w_cbranch: 30, w_cbranch_ret: 6, w_return: 12, w_ext_call: 40, w_int_call: 10,
         w_callind: 5, w_branchind: 3, w_nojump: 1, w_callother: 1, w_single_cbranch: 1, p_no_ret: 8, p_empty_sub: 3, p_forward: 60, p_chain: 0,
+        // NULL checks whose fall-through is an indirect jump with listed targets
+        p_cbranch_ind: (1, 2), min_hints: 1,
         sub_cconvs: if two_cconvs { vec!["".to_string(), "__fastalt".to_string(), "__stdcall".to_string()] } else { vec!["".to_string()] },
     }
 }
